@@ -302,7 +302,7 @@ class SshHostKeyECDSABase(SshHostKeyBase):
                 parser['curve_identifier'].value.named_group,
                 parser['curve_data'],
             ))
-        except ValueError as e:  # not an uncompressed point of that curve
+        except (ValueError, OverflowError) as e:  # not an uncompressed point of that curve
             six.raise_from(InvalidValue(bytes(parser['curve_data']), cls, 'curve_data'), e)
 
         del parser['curve_identifier']
